@@ -205,6 +205,11 @@ func prepare(needRace, needPlain bool) *build {
 	}
 	b := &build{sites: filepath.Join(scratch, "sites.json")}
 	b.corpus = fmt.Sprintf("repo=%s,repo-ir=%s,verif=%s", filepath.Join(tree, "asm", "testdata"), filepath.Join(tree, "ir", "testdata"), filepath.Join(root, "corpus"))
+	// A 145 KB module (longer than any plausible fixed-size read buffer) for the
+	// checks that can afford it.
+	if *flagProperty == "C12" || (*flagProperty == "C19" && tier == "thorough") || *flagReplay != "" {
+		b.corpus += ",large=" + filepath.Join(root, "corpus-large")
+	}
 
 	// Instrument, falling back to fewer rewrite classes if the result does not
 	// compile (a future edit of llir/llvm may use a form the splicer mishandles).
